@@ -39,7 +39,8 @@ ASSUMPTIONS = ['no NaN data (an order is taken by labeled_max/min)',
                'fullhistogram: unsigned/bool images with max < 2^12 (one bin per value)',
                'remove_bordering: rsize >= 0', 'filter_labeled: min_size/max_size None or >= 1',
                'border(i, j): i != j, both representable in the label dtype',
-               'center_of_mass: |values| < 2^53 (the kernel converts to double)',
+               'center_of_mass: |values| <= 2^40 are generated so that every accumulation is an exact double (the kernel converts '
+               'each value to double: for |values| >= 2^53 only the rounded computation is defined, outside the statement)',
                'label values are representable in a C int where the wrapper converts the map to intc (relabel, is_same_labeling, '
                'remove_regions[_where], labeled_sum/max/min, filter_labeled: numpy wraps larger values silently); labeled_size '
                'reduces labels modulo 2^32 (modelled; compared with the plain counts only for labels < 2^32)',
@@ -560,6 +561,15 @@ def _prep(c):
     return c
 
 
+def _magnitude(c):
+    """tag: integer data of magnitude >= 2^53 / >= 2^63 (not exactly representable in double / beyond int64)"""
+    d = c.get('data')
+    if not d or c.get('dtype') in FLOATS or not isinstance(d, list):
+        return {}
+    m = max(abs(v) for v in d)
+    return {'magnitude': '>=2^63'} if m >= 2 ** 63 else {'magnitude': '>=2^53'} if m >= 2 ** 53 else {}
+
+
 def evaluate(cases):
     pcs = [_prep(c) for c in cases]
     lines = [_line(c) for c in pcs]
@@ -581,7 +591,8 @@ def evaluate(cases):
                                   dtype=c.get('dtype', c.get('ldtype', 'int32')), ndim=len(c['shape']),
                                   layout=c.get('layout', 'C'),
                                   **({'mode': c['mode']} if 'mode' in c else {}),
-                                  **({'size': 'threshold'} if 'thr' in c else {}))))
+                                  **({'size': 'threshold'} if 'thr' in c else {}),
+                                  **_magnitude(c))))
     return res
 
 
@@ -627,6 +638,12 @@ def _values(rng, dtype, n):
         if style < 0.5:
             return [rng.randint(1, 400) for _ in range(n)]
         return [rng.randint(-400, 400) for _ in range(n)]
+    if dtype in ('int64', 'uint64') and rng.random() < 0.2:
+        # neighbours around 2^53 and the 64-bit limits mixed with 0/+-1: a kernel that went through double would merge
+        # 2^53 with 2^53+1 (max/min) and lose the low bits of a sum that must wrap exactly modulo 2^64
+        pool = [2 ** 53, 2 ** 53 + 1, 2 ** 53 + 2, 2 ** 63 - 1, 0, 1]
+        pool += [-2 ** 63, -1, -(2 ** 53) - 1] if dtype == 'int64' else [2 ** 63, 2 ** 63 + 1, 2 ** 64 - 1]
+        return [rng.choice(pool) for _ in range(n)]
     return [int(x) for x in gen.rand_int_array(rng, (n,), dtype).tolist()]
 
 
